@@ -13,6 +13,7 @@ import (
 	"go/types"
 	"sort"
 	"strings"
+	"sync"
 
 	"golang.org/x/tools/go/ssa"
 )
@@ -628,12 +629,55 @@ func (e *Engine) evalD(c *config, v ssa.Value, d int) Abs {
 		}
 		if f := v.Call.StaticCallee(); f != nil {
 			name := f.String()
-			if nonNilFuncs[name] {
+			if nonNilFuncs[name] || alwaysNonNil(f, 0) {
 				return NonZero
 			}
 		}
 	}
 	return Unknown
+}
+
+var (
+	alwaysNonNilCache = map[*ssa.Function]int{}
+	alwaysNonNilMu    sync.Mutex
+)
+
+// alwaysNonNil: f is a one-result helper with a body, every return of which hands back the result of an error
+// constructor that never returns nil (fmt.Errorf, errors.New, status.Error[f]) or of another such helper — a
+// message-wrapping helper like `func changeFailed(err error) error { return fmt.Errorf("…: %w", err) }`.
+func alwaysNonNil(f *ssa.Function, depth int) bool {
+	if depth == 0 {
+		alwaysNonNilMu.Lock()
+		defer alwaysNonNilMu.Unlock()
+	}
+	if f == nil || f.Blocks == nil || depth > 2 || f.Signature.Results().Len() != 1 {
+		return false
+	}
+	if v, ok := alwaysNonNilCache[f]; ok {
+		return v == 1
+	}
+	alwaysNonNilCache[f] = 2
+	n := 0
+	for _, b := range f.Blocks {
+		ret, ok := b.Instrs[len(b.Instrs)-1].(*ssa.Return)
+		if !ok {
+			continue
+		}
+		n++
+		call, ok := ret.Results[0].(*ssa.Call)
+		if !ok {
+			return false
+		}
+		g := call.Call.StaticCallee()
+		if g == nil || !(nonNilFuncs[g.String()] || alwaysNonNil(g, depth+1)) {
+			return false
+		}
+	}
+	if n == 0 {
+		return false
+	}
+	alwaysNonNilCache[f] = 1
+	return true
 }
 
 var errorType = types.Universe.Lookup("error").Type()
@@ -1457,7 +1501,7 @@ func (e *Engine) builtinContract(c *config, call ssa.CallInstruction) ([]Abs, bo
 		}
 		return []Abs{Unknown}, true
 	}
-	if nonNilFuncs[f.String()] {
+	if nonNilFuncs[f.String()] || alwaysNonNil(f, 0) {
 		return []Abs{NonZero}, true
 	}
 	return nil, false
